@@ -1,5 +1,67 @@
+"""Replay of C03 counterexamples; adds root-cause tags computed from the concrete program."""
+import ast
 from harness.bref_replay import replay_with
 
 
+def _offsets(src):
+    starts = [0]
+    for i, ch in enumerate(src):
+        if ch == "\n":
+            starts.append(i + 1)
+    return starts
+
+
+def _span(starts, n):
+    return starts[n.lineno - 1] + n.col_offset, starts[n.end_lineno - 1] + n.end_col_offset
+
+
+def tags_of(files, op):
+    src = files[op["path"]]
+    a, b = op["start"], op["end"]
+    tree = ast.parse(src)
+    starts = _offsets(src)
+    tags = set()
+    region = src[a:b]
+    try:
+        rnames = {n.id for n in ast.walk(ast.parse(region.strip(), mode="eval")) if isinstance(n, ast.Name)}
+        is_expr = True
+    except SyntaxError:
+        rnames = set()
+        is_expr = False
+    inside = lambda n: hasattr(n, "lineno") and _span(starts, n)[0] <= a and b <= _span(starts, n)[1]  # noqa: E731
+    funcs = [n for n in ast.walk(tree) if isinstance(n, (ast.FunctionDef, ast.AsyncFunctionDef)) and inside(n)]
+    if is_expr and op.get("similar") and region.strip().isidentifier():
+        tags.add("similar-on-a-bare-name")
+    if is_expr and op.get("global_") and funcs:
+        fn = funcs[-1]
+        local = {x.arg for x in fn.args.posonlyargs + fn.args.args + fn.args.kwonlyargs}
+        local |= {n.id for n in ast.walk(fn) if isinstance(n, ast.Name) and isinstance(n.ctx, ast.Store)}
+        if rnames & local:
+            tags.add("global-extraction-reads-function-local")
+    if is_expr:
+        for n in ast.walk(tree):
+            if isinstance(n, (ast.ListComp, ast.SetComp, ast.DictComp, ast.GeneratorExp)) and inside(n) and _span(starts, n) != (a, b):
+                bound = {x.id for g in n.generators for x in ast.walk(g.target) if isinstance(x, ast.Name)}
+                if rnames & bound:
+                    tags.add("region-reads-a-comprehension-variable")
+            if isinstance(n, ast.Lambda) and inside(n.body):
+                bound = {x.arg for x in n.args.posonlyargs + n.args.args + n.args.kwonlyargs}
+                if rnames & bound:
+                    tags.add("region-reads-a-lambda-parameter")
+            if isinstance(n, ast.While) and inside(n.test) and op["api"] == "extract_variable":
+                written = {x.id for st in n.body for x in ast.walk(st) if isinstance(x, ast.Name) and isinstance(x.ctx, ast.Store)}
+                if rnames & written:
+                    tags.add("loop-condition-evaluated-once")
+    return sorted(tags)
+
+
 def replay(f):
-    return replay_with(f, check_imports=False)
+    r = replay_with(f, check_imports=False)
+    if r.get("reproduced"):
+        try:
+            tags = tags_of(f["witness"]["files"], f["witness"]["op"])
+        except Exception:
+            tags = ["untagged"]
+        if tags:
+            r["signature"] = r["signature"].replace("|", "/") + "".join("|" + t for t in tags)
+    return r
